@@ -79,7 +79,7 @@ func mandatoryLen(name string, img []byte, r record) int {
 }
 
 func runC03(res *Result, d *Driver, g *Rng, tier string) {
-	res.Rule = "every PDU decoder and the five dispatchers on structured malformed images (every truncation point, length/count octets replaced by 0,1,0x7f,0x80,0xff, inconsistent total length incl. 0xFFFFFFF0-style declared lengths, trailing garbage 1..16, well-formed and malformed optional tails) and random bytes; auxiliary parsers (PeekHeader x4, NewHeaderFromBytes, ParseLongSmsContent, both receipt extractors, Unpack / packed decoder, ReadTLVs/ReadTLVs1/ReadOptions/ParseOptions, frame extractors, text decoders, Decode*Content) on all strings of <= 2 octets, branch alphabets to length 4 (5 thorough) and random strings; panic, deadline (hang) and runtime.MemStats.TotalAlloc captured per call; non-trivial = distinct input"
+	res.Rule = "every PDU decoder and the five dispatchers on structured malformed images (every truncation point, length/count octets replaced by 0,1,0x7f,0x80,0xff, inconsistent total length incl. 0xFFFFFFF0-style declared lengths, trailing garbage 1..16, well-formed and malformed optional tails) and random bytes; auxiliary parsers (PeekHeader x4, NewHeaderFromBytes, ParseLongSmsContent, both receipt extractors (incl. invalid UTF-8 and case-folding-sensitive letters in front of every key), Unpack / packed decoder, ReadTLVs/ReadTLVs1/ReadOptions/ParseOptions, frame extractors, text decoders, Decode*Content) on all strings of <= 2 octets, branch alphabets to length 4 (5 thorough) and random strings; panic, deadline (hang) and runtime.MemStats.TotalAlloc captured per call; non-trivial = distinct input"
 	if err := loadLayouts(layoutsPath); err != nil {
 		res.Disagreements = append(res.Disagreements, Violation{Class: "driver-failure", What: err.Error()})
 		return
@@ -237,6 +237,16 @@ func runC03(res *Result, d *Driver, g *Rng, tier string) {
 		for n := 0; n <= 24; n++ {
 			tail := strings.Repeat("7", n)
 			inputs = append(inputs, []byte(key+tail), []byte("xx "+key+tail), []byte(key+tail+" "))
+		}
+	}
+	// receipt texts are untrusted octets, not necessarily UTF-8: octets that are invalid UTF-8, and letters whose
+	// lower- or upper-cased form has another length, in front of a key that sits at or near the end of the text
+	// (an offset found in a case-folded copy then lies beyond the original)
+	for _, pre := range []string{"\xff", "\xff\xff\xff", "\xc4\xe3\xba\xc3", "\u023a\u023a\u023a", "\u0130\u0130", "\xe4\xb8", "\xf0\x9f\x98", strings.Repeat("\xfe", 12), "id:1 text:\xc4\xe3\xba\xc3 "} {
+		for _, key := range []string{"id:", "sub:", "dlvrd:", "submit date:", "done date:", "stat:", "err:", "text:", "Text:", "Submit_Date:", "Done_Date:", "Stat:", "Err:", "ID:", "STAT:"} {
+			for _, tail := range []string{"", "1", "OK", "0123456789", "0123456789 x"} {
+				inputs = append(inputs, []byte(pre+key+tail), []byte(pre+" "+key+tail), []byte(key+tail+" "+pre))
+			}
 		}
 	}
 	for i := 0; i < 3000; i++ {
